@@ -877,6 +877,7 @@ impl Sim {
                 let recvd = *n.recv_from.get(&remote_after).unwrap_or(&0);
                 let credit = if from == remote_after { len as u64 } else { 0 };
                 n.amp_epoch.insert(ch, (remote_after, sent, recvd.saturating_sub(credit)));
+                self.ledger.path_moved(node, ch, remote_after, sent, recvd.saturating_sub(credit));
             }
             if let Some(b) = before {
                 let a = self.nodes[node].conns[&ch].conn.verif_snapshot();
@@ -1275,8 +1276,10 @@ impl Sim {
             let len = seg.min(t.size - off);
             self.ledger.checks += 1;
             if !crate::ledger::DestLedger::may_start(sent, recvd) {
-                let key = if off_path { "amplification-limit-exceeded-off-path" } else { "amplification-limit-exceeded-cumulative" };
-                self.fail(key, format!("node {node} conn {ch}: datagram of {len} bytes to {} (never validated: no Handshake packet, token or challenge answer seen from it; connection path is {}, path.validated {}) with {sent} bytes already sent to it and {recvd} received from it in total (3x = {})", t.destination, before.path.remote, before.path.validated, 3 * recvd));
+                // the recorded finding is the HISTORY "path moved to this address >= 2 times, the current stay is within its
+                // own budget" (ledger.rs::cumulative_key); any other cumulative excess keeps a key that is not recorded
+                let key = if off_path { "amplification-limit-exceeded-off-path" } else { self.ledger.cumulative_key(node, ch, t.destination, sent, recvd) };
+                self.fail(key, format!("node {node} conn {ch}: datagram of {len} bytes to {} (never validated: no Handshake packet, token or challenge answer seen from it; connection path is {}, path.validated {}) with {sent} bytes already sent to it and {recvd} received from it in total (3x = {}); {}", t.destination, before.path.remote, before.path.validated, 3 * recvd, self.ledger.history(node, ch, t.destination, sent, recvd)));
                 break;
             }
             sent += len as u64;
